@@ -51,11 +51,15 @@ let file_of_spec (s : string) : n list =
   | 'H' -> bytes_of_hex (String.sub s 1 (String.length s - 1))
   | _ -> failwith "bad file spec"
 
-(* FNV-1a 64 *)
-let fnv_init = 0xcbf29ce484222325L
-let fnv_prime = 0x100000001b3L
-let fnv_extend (h : int64) (b : n list) : int64 =
-  List.fold_left (fun h x -> Int64.mul (Int64.logxor h (Int64.of_int (int_of_n x land 255))) fnv_prime) h b
+(* file fingerprint: Fletcher-style sums modulo 2^32 - 5, packed b << 32 | a (same as harness util.rs) *)
+let fp_p = 4294967291
+let fnv_init = 0L
+let fnv_extend (h : int64) (bs : n list) : int64 =
+  let a = ref (Int64.to_int (Int64.logand h 0xffffffffL)) and b = ref (Int64.to_int (Int64.shift_right_logical h 32)) in
+  List.iter (fun x ->
+    a := !a + (int_of_n x land 255) + 1; if !a >= fp_p then a := !a - fp_p;
+    b := !b + !a; if !b >= fp_p then b := !b - fp_p) bs;
+  Int64.logor (Int64.shift_left (Int64.of_int !b) 32) (Int64.of_int !a)
 
 let opt_letter = function OBlkSize -> "b" | OTSize -> "s" | OTimeout -> "t" | OWindowSize -> "w"
 let opt_of_letter = function "b" -> OBlkSize | "s" -> OTSize | "t" -> OTimeout | "w" -> OWindowSize
@@ -172,6 +176,40 @@ let run_recv toks =
     Buffer.contents buf
   | _ -> failwith "bad recv case"
 
+(* ---- WIN ---- *)
+let run_win toks =
+  match toks with
+  | [_; mode; size; chunk; content; ops] ->
+    let content = bytes_of_hex content in
+    let f = match mode with
+      | "R" -> { f_mode = FRead; f_rest = content; f_written = [] }
+      | "W" -> { f_mode = FWrite; f_rest = []; f_written = [] }
+      | "A" -> { f_mode = FReadAppend; f_rest = content; f_written = [] }
+      | _ -> failwith "bad mode" in
+    let w = ref (window_new (n_of_dec size) (n_of_dec chunk) f) in
+    let buf = Buffer.create 256 in
+    let piece p = match p with [] -> "_" | _ -> hex_of_bytes p in
+    if ops <> "-" then
+      List.iter (fun op ->
+        let kind = op.[0] and rest = String.sub op 1 (String.length op - 1) in
+        let o = match kind with
+          | 'f' -> OpFill | 'e' -> OpEmpty | 'r' -> OpRemove (n_of_dec rest) | 'a' -> OpAdd (bytes_of_hex rest)
+          | _ -> failwith "bad op" in
+        let (w1, ob) = wstep !w o in
+        w := w1;
+        let res = match ob with
+          | ObsFill true -> "t" | ObsFill false -> "f" | ObsUnit -> "ok"
+          | ObsErr WIo -> "Eio" | ObsErr WRemove -> "Erm" | ObsErr WAdd -> "Eadd" in
+        Buffer.add_string buf (Printf.sprintf "%s:%s:%d%d:%s " res (dec_of_n (w_len w1))
+          (if w_is_empty w1 then 1 else 0) (if w_is_full w1 then 1 else 0)
+          (match w1.w_elems with [] -> "-" | l -> String.concat "." (List.map piece l))))
+        (String.split_on_char ',' ops);
+    let written = written_bytes !w.w_file in
+    let fin = match mode with "R" -> content | "W" -> written | _ -> content @ written in
+    Buffer.add_string buf ("file=" ^ hex_or_dash fin);
+    Buffer.contents buf
+  | _ -> failwith "bad win case"
+
 (* ---- CODEC ---- *)
 let run_dec toks =
   match toks with
@@ -256,13 +294,105 @@ let mon_c11 case impl =
   | ("dec" :: _), _ -> (match mon_dec case impl with "pass" -> "pass" | v -> v)
   | _ -> "skip"
 
+(* ---- worker traces ---- *)
+let n_of_hex (s : string) : n =
+  (* 16 hex digits -> N, through two 32-bit halves *)
+  let v = ref N0 in
+  String.iter (fun c -> v := N.add (N.mul !v (n_of_int 16)) (n_of_int (hexval c))) s; !v
+
+let parse_snap (s : string) : (n * n) option =
+  if s = "absent" then Some (N0, N0) else
+  match String.split_on_char ':' s with
+  | [l; h] -> Some (n_of_dec l, n_of_hex h)
+  | _ -> failwith "bad snapshot"
+
+let tend_of = function
+  | "ok" -> EndOk | "timeout" -> EndTimeout | "peer" -> EndPeer | "sendfail" -> EndSendFail
+  | "runaway" -> EndRunaway | _ -> EndOther
+
+(* trace tokens: s<hex>[@len:hash][!] | r | file=.. | end=.. *)
+let parse_trace (impl : string) : titem list * string * string =
+  let items = ref [] and ending = ref "none" and file = ref "" in
+  List.iter (fun t ->
+    if t = "r" then items := TRecv :: !items
+    else if String.length t > 4 && String.sub t 0 4 = "end=" then ending := String.sub t 4 (String.length t - 4)
+    else if String.length t > 5 && String.sub t 0 5 = "file=" then file := String.sub t 5 (String.length t - 5)
+    else if t.[0] = 's' then begin
+      let failed = t.[String.length t - 1] = '!' in
+      let body = String.sub t 1 (String.length t - 1 - (if failed then 1 else 0)) in
+      let (h, snap) = match String.index_opt body '@' with
+        | Some i -> (String.sub body 0 i, parse_snap (String.sub body (i + 1) (String.length body - i - 1)))
+        | None -> (body, None) in
+      items := TSend (bytes_of_hex h, failed, snap) :: !items end
+    else failwith ("bad trace token " ^ t)) (words impl);
+  (List.rev !items, !ending, !file)
+
+let rec take n l = if n = 0 then [] else match l with [] -> [] | x :: r -> x :: take (n - 1) r
+
+let mevs_of (evs : ev list) (cut : int option) : mev list =
+  List.map (function
+    | EvDgram (d, raw) -> { m_delay = d; m_raw = Some (match cut with Some c -> take c raw | None -> raw) }
+    | EvFail d -> { m_delay = d; m_raw = None }) evs
+
+let fbyte_of_spec (s : string) : (n -> n) * int =
+  match s.[0] with
+  | 'P' -> (match String.split_on_char ':' (String.sub s 1 (String.length s - 1)) with
+            | [l; sd] -> let seed = int_of_string sd in
+              ((fun i -> let i = int_of_n i in byte_tbl.((seed + i * 31 + (i / 256) * 7) mod 256)), int_of_string l)
+            | _ -> failwith "bad P spec")
+  | 'H' -> let a = Array.of_list (bytes_of_hex (String.sub s 1 (String.length s - 1))) in
+    ((fun i -> let i = int_of_n i in if i < Array.length a then a.(i) else N0), Array.length a)
+  | _ -> failwith "bad file spec"
+
+let mon_send prop case impl =
+  match words case with
+  | [_; blk; ws; tmo; rep; check; fspec; _; evs] ->
+    let (items, ending, _) = parse_trace impl in
+    let (fbyte, size) = fbyte_of_spec fspec in
+    let v = okSend (n_of_dec blk) (n_of_dec ws) (n_of_dec tmo) (n_of_dec rep) (n_of_int size) fbyte
+              (check = "1") (mevs_of (parse_events evs) (Some 516)) items (tend_of ending) in
+    let long = size / (int_of_string blk) >= 65000 in
+    (match prop with
+     | "C01" -> verdict v.v_c01
+     | "C07" -> verdict v.v_c07
+     | "C08" -> verdict v.v_c08
+     | "C16" -> verdict (v.v_c16 && (rep = "1" || (v.v_c08 && v.v_c07 && v.v_c01)))
+     | "C15" -> if long then verdict (v.v_c01 && v.v_c07 && v.v_c08) else "skip"
+     | "C04" -> "skip"
+     | _ -> "skip")
+  | _ -> "fail:unparsable"
+
+let mon_recv prop case impl =
+  match words case with
+  | [_; blk; ws; tmo; rep; clean; _; evs] ->
+    let (items, ending, file) = parse_trace impl in
+    let final = if file = "absent" || file = "" then None else parse_snap file in
+    let evl = parse_events evs in
+    let v = okRecv (n_of_dec blk) (n_of_dec ws) (n_of_dec rep) (clean = "1") (n_of_dec tmo)
+              (mevs_of evl None) items (tend_of ending) final in
+    let long = List.length evl >= 65000 in
+    (match prop with
+     | "C02" -> verdict v.u_c02
+     | "C07" -> verdict v.u_c07
+     | "C08" -> verdict v.u_c08
+     | "C16" -> verdict (v.u_c16 && (rep = "1" || (v.u_c02 && v.u_c07 && v.u_c08)))
+     | "C13" -> verdict v.u_c13
+     | "C04" -> verdict v.u_c04
+     | "C15" -> if long then verdict (v.u_c02 && v.u_c07 && v.u_c08 && v.u_c04) else "skip"
+     | _ -> "skip")
+  | _ -> "fail:unparsable"
+
 let run_mon (line : string) : string =
   match String.split_on_char '\t' line with
   | [_; prop; case; impl] ->
     (match prop with
      | "C10" -> (match words case with "dec" :: _ -> mon_dec case impl | _ -> "skip")
      | "C11" -> mon_c11 case impl
-     | _ -> "skip")
+     | _ -> (match words case with
+             | "send" :: _ -> mon_send prop case impl
+             | "recv" :: _ -> mon_recv prop case impl
+             | "win" :: _ -> if prop = "C18" then (if String.trim (run_win (words case)) = String.trim impl then "pass" else "fail:differs-from-the-verified-queue-specification") else "skip"
+             | _ -> "skip"))
   | _ -> "fail:bad-monitor-line"
 
 let run_line (line : string) : string =
@@ -273,6 +403,7 @@ let run_line (line : string) : string =
   | k :: _ when String.length k > 0 && k.[0] = '#' -> ""
   | "send" :: _ -> run_send toks
   | "recv" :: _ -> run_recv toks
+  | "win" :: _ -> run_win toks
   | "dec" :: _ -> run_dec toks
   | "enc" :: _ -> run_enc toks
   | "opc" :: _ -> run_opc toks
